@@ -195,8 +195,9 @@ func (s *RegScenario) Setup(k *sim.Kernel) {
 					if !connect() {
 						continue
 					}
-					var vendor, product, version, url string
-					var ifaces []string
+					// (destination variables that hold something already, as re-used ones do)
+					vendor, product, version, url := "stale", "stale", "stale", "stale"
+					ifaces := []string{"stale"}
 					o.Call = sim.Rec("getinfo.call", "")
 					err := conn.GetInfo(ctx, &vendor, &product, &version, &url, &ifaces)
 					if err != nil {
@@ -256,8 +257,9 @@ func (s *RegScenario) Setup(k *sim.Kernel) {
 					}
 					oc := varlink.VerifNewConnection(ep)
 					if op.Op == "ogetinfo" {
-						var vendor, product, version, url string
-						var ifaces []string
+						// (destination variables that hold something already, as re-used ones do)
+						vendor, product, version, url := "stale", "stale", "stale", "stale"
+						ifaces := []string{"stale"}
 						if err := oc.GetInfo(ctx, &vendor, &product, &version, &url, &ifaces); err != nil {
 							o.Failed, o.Out = true, errClass(err)
 						} else {
@@ -282,8 +284,9 @@ func (s *RegScenario) Setup(k *sim.Kernel) {
 						continue
 					}
 					r := varlink.VerifNewResolver(s.Service.Address, conn)
-					var vendor, product, version, url string
-					var ifaces []string
+					// (destination variables that hold something already, as re-used ones do)
+					vendor, product, version, url := "stale", "stale", "stale", "stale"
+					ifaces := []string{"stale"}
 					o.Call = sim.Rec("rgetinfo.call", "")
 					err := r.GetInfo(ctx, &vendor, &product, &version, &url, &ifaces)
 					if err != nil {
